@@ -34,7 +34,7 @@ var (
 )
 
 type pointSpec struct {
-	action string // sleep | kill | exit
+	action string // sleep | hold | kill | exit
 	arg    int
 	nth    int  // act on the nth hit in this process (0 = every hit)
 	once   bool // act only in the first process (system-wide) that gets here
@@ -118,7 +118,8 @@ func parsePoints() {
 }
 
 // Point is a failpoint. GARBLE_VERIF_FAIL="name=sleep:200;name2=kill;name3=exit:3@2"
-// makes the hit sleep (ms), SIGKILL its whole process group, or exit. A name may
+// makes the hit sleep (ms), SIGKILL its whole process group, or exit; "name=hold:ms"
+// blocks until the file release-<name> appears in GARBLE_VERIF_LOG. A name may
 // be qualified as "name/import/path" to act only while handling that package.
 func Point(name string) {
 	if os.Getenv("GARBLE_VERIF_FAIL") == "" {
@@ -159,6 +160,16 @@ func Point(name string) {
 	switch ps.action {
 	case "sleep":
 		time.Sleep(time.Duration(ps.arg) * time.Millisecond)
+	case "hold":
+		// Wait (at most arg ms) until the monitor creates release-<name> in the log directory.
+		release := filepath.Join(logDir(), "release-"+strings.ReplaceAll(name, "/", "_"))
+		for waited := 0; waited < ps.arg; waited += 20 {
+			if _, err := os.Stat(release); err == nil {
+				break
+			}
+			time.Sleep(20 * time.Millisecond)
+		}
+		Event("point.released", "name", name)
 	case "kill":
 		syscall.Kill(0, syscall.SIGKILL)
 		time.Sleep(time.Hour)
